@@ -2,7 +2,7 @@
    Mirrors the code of the current /repo function by function; exceptions are values of `result`. *)
 From Coq Require Import List NArith ZArith Bool Arith.
 From Coq Require Import Strings.Byte.
-Require Import CU.model.Prim CU.model.Types CU.model.Unicode CU.model.Codec CU.model.Card CU.model.Dates.
+Require Import CU.model.Prim CU.model.Types CU.model.Unicode CU.model.Regex CU.model.Codec CU.model.Card CU.model.Dates.
 Import ListNotations.
 
 (* ---------- BitArray: 128 flags <-> 16 bytes, most significant bit first ---------- *)
@@ -198,7 +198,19 @@ Definition iso_to_field (bit : nat) (c : fieldcfg) (data : bytes) (cd : codec) :
         | VStr t => do sub <- pds_to_dict t; Ok (dupdate [(KDE bit, v)] sub, fl + ls)
         | _ => Unmodelled
         end
-      | _ => Ok ([(KDE bit, v)], fl + ls)                (* DE43_* entries come from the regex oracle: not modelled *)
+      | PDE43 =>                                          (* return_values.update(_get_de43_fields(value, config)) *)
+        match v with
+        | VStr t =>
+          match de43_fields (f_de43 c) t with
+          | Some gs => Ok (dupdate [(KDE bit, v)] (map (fun nv => (KOther (fst nv), VStr (snd nv))) gs), fl + ls)
+          | None => Unmodelled                             (* a pattern outside the modelled regex fragment *)
+          end
+        | _ => match f_de43 c with
+               | D43None => Ok ([(KDE bit, v)], fl + ls)    (* `if not processor_config: return dict()` *)
+               | _ => Raise EType                          (* re.match on an int / datetime: TypeError *)
+               end
+        end
+      | _ => Ok ([(KDE bit, v)], fl + ls)
       end
     end
   end.
